@@ -611,6 +611,7 @@ class FakeDaemon:
         self.on_call = None                 # hook(name) -> None, may mutate the world
         self.calls = []
         self.broadcasts = []
+        self.slow_calls = {}                # name -> (latency s, callback|None): one-shot override
         self.reveal = None                  # when set, an int: the daemon pretends its tip is
         #                                     at most this height (tip revealed in instalments)
 
@@ -631,6 +632,11 @@ class FakeDaemon:
         lat = LATENCIES[0]
         if self.chooser is not None and self.max_latency:
             lat = LATENCIES[self.chooser.draw('lat:' + name, self.max_latency + 1)]
+        override = self.slow_calls.pop(name, None)
+        if override is not None:
+            lat, callback = override
+            if callback is not None:
+                callback()
         await asyncio.sleep(lat)
         if self.on_call is not None:
             self.on_call(name)
